@@ -312,6 +312,50 @@ def check_always_finalised(repo, rep, uni):
         if isinstance(r, ast.Return) and r.value is not None)
     rep.ob('R10c', fz.key, ok, 'the default #finalize must call '
            'convert_output_data', loc=init.loc(fz.node))
+    # ... and "switched off" means the host set yaql.convertOutputData to a
+    # false value, nothing else: the decision is evaluated abstractly for
+    # every combination of the conversion options being unset / off / on
+    from sa import absint
+    import itertools
+    ps = fz.params()
+    n = 0
+    bad = []
+    KEYS = ('yaql.convertOutputData', 'yaql.convertInputData',
+            'yaql.convertTuplesToLists', 'yaql.convertSetsToLists')
+    for vals in itertools.product((None, False, True), repeat=len(KEYS)):
+        opts = {k: v for k, v in zip(KEYS, vals) if v is not None}
+        raw = absint.Sym('raw')
+        conv = absint.Sym('converted')
+
+        def oracle(callee, args, kwargs):
+            if callee.endswith('convert_output_data'):
+                return (conv,) if args and args[0] is raw else (
+                    absint.Sym('converted-something-else'),)
+            return None
+        it = absint.Interp(repo, init, oracle)
+        amap = {ps[0]: raw}
+        for q in ps[1:]:
+            amap[q] = absint.Obj('engine', options=dict(opts)) \
+                if 'engine' in q else absint.Sym(q)
+        try:
+            out = it.run(fz.node, amap)
+        except absint.Unsupported as e:
+            raise AnalysisError('R10c: the default #finalize uses a '
+                                'construct outside the modelled fragment '
+                                '(%s): not decided' % e)
+        n += 1
+        want = conv if opts.get('yaql.convertOutputData', True) else raw
+        if not (out[0] == 'return' and out[1] is want):
+            bad.append('options %s -> %s' % (opts, 'converted' if out[1]
+                                             is conv else 'raw' if out[1]
+                                             is raw else out[1]))
+    rep.ob('R10c', fz.key + '/switch', not bad,
+           'the result is handed out unconverted exactly when the host set '
+           'yaql.convertOutputData to false; here also / not for: %s. An '
+           'engine configured otherwise returns generators, FrozenDicts '
+           'and tuples instead of plain data' % bad[:3],
+           loc=init.loc(fz.node), construct='; '.join(bad[:2]))
+    rep.floor('finaliser switch scenarios', n, 81)
 
 
 def check_value_universe(repo, rep, uni, facts):
